@@ -351,6 +351,10 @@ from ..names_check import names_clause  # noqa: E402
 if names_clause("C01") is not None:
     CLAUSES.append(names_clause("C01"))
 
+from ..envcheck import env_clauses  # noqa: E402
+
+CLAUSES.extend(env_clauses("C01", ("ccsds",), n_quick=2, n_thorough=30))
+
 PROPERTY = Property(
     id="C01",
     level="exploration",
